@@ -375,7 +375,12 @@ pub(crate) fn finalize_insertion_ctx(insertion_ctx: &mut InsertionContext) {
 
     // NOTE: a route can be added speculatively when insertion fails (see `notify_failure`) and stay
     // without jobs: do not keep it as an empty tour is not a part of a valid solution
+    let routes = insertion_ctx.solution.routes.len();
     insertion_ctx.solution.remove_empty_routes();
+    if routes != insertion_ctx.solution.routes.len() {
+        // conditional jobs (e.g. breaks) of removed routes should be reconsidered
+        insertion_ctx.problem.goal.accept_solution_state(&mut insertion_ctx.solution);
+    }
 }
 
 pub(crate) fn apply_insertion_success(insertion_ctx: &mut InsertionContext, success: InsertionSuccess) {
